@@ -621,6 +621,28 @@ func checkDecoderWindow(c *Ctx, p *core.Prog, ts *ssa.Function, read *ssa.Call) 
 	}
 	c.R.RequireMin("R08.5", "rune decode sites", n, 1)
 
+	// R08.9 the read buffer is looked at through the rune decoder only: a byte fetched from it directly (a look-ahead at
+	// the next byte, say) is only there if it happens to lie in the current window - behind the last byte of a window it is
+	// a byte of an earlier read, or the test that protects the access fails - so what the tokenizer does depends on how
+	// the text is aligned to the windows
+	if sl != nil {
+		nIdx, bad := 0, ""
+		for _, b := range ts.Blocks {
+			for _, in := range b.Instrs {
+				ia, ok := in.(*ssa.IndexAddr)
+				if !ok {
+					continue
+				}
+				nIdx++
+				if sameSliceBase(ia.X, sl.X) {
+					bad = p.Pos(ia.Pos())
+				}
+			}
+		}
+		c.R.Check(bad == "", "R08.9", "tokenizeStream: no byte of the read buffer is fetched past the decoder", p.Pos(ts.Pos()), fmt.Sprintf("%d indexing operations, none into the read buffer", nIdx),
+			"a byte of the read buffer is fetched directly at "+bad+": whether it is there depends on where the read window ends, so padding the input by a few bytes changes the tokens")
+	}
+
 	// R08.6 the scan position moves only by the size of the rune that was decoded: every byte of the input is seen by the
 	// decoder and by the dispatch that follows it (newlines, blanks, word characters), none is stepped over.
 	for _, call := range core.CallsIn(ts) {
